@@ -24,6 +24,7 @@ type job struct {
 	At       int    `json:"at"`       // probe index (1-based) at which the fault is raised
 	MaxDepth int    `json:"maxdepth"` // call-stack limit for fault "depth"
 	After    string `json:"after"`    // script run on the same runtime after the (faulted) run
+	Entry    string `json:"entry"`    // "" (AssertFunction) | "new" (Runtime.New)
 	Pre      string `json:"pre"`      // "" | "idleint" (Interrupt while idle) | "idleintclear" (Interrupt + ClearInterrupt while idle)
 	AsyncUs  int    `json:"async_us"` // > 0: another goroutine calls Interrupt after this many microseconds
 }
@@ -153,6 +154,8 @@ func runOne(j job) (res result, trace string) {
 	if j.Fault == "depth" {
 		vm.SetMaxCallStackSize(j.MaxDepth)
 	}
+	trk := &tracker{}
+	vm.SetAsyncContextTracker(trk)
 	switch j.Pre {
 	case "idleint":
 		vm.Interrupt("idle-injected")
@@ -179,7 +182,10 @@ func runOne(j job) (res result, trace string) {
 		}()
 		_, err := vm.RunString(j.Src)
 		if err == nil && j.Gen == 0 {
-			if f, ok := goja.AssertFunction(vm.Get("f")); ok {
+			if j.Entry == "new" {
+				// the same function entered through Runtime.New
+				_, err = vm.New(vm.Get("f"))
+			} else if f, ok := goja.AssertFunction(vm.Get("f")); ok {
 				_, err = f(goja.Undefined())
 			}
 		}
@@ -194,8 +200,11 @@ func runOne(j job) (res result, trace string) {
 	}()
 	res.Probes = probes
 	regs := goja.VerifRegs(vm)
-	res.Idle = regs.Idle() && !regs.Interrupted
-	res.Regs = fmt.Sprintf("%+v", regs)
+	res.Idle = regs.Idle() && !regs.Interrupted && trk.depth == 0 && !trk.nested
+	if trk.depth != 0 || trk.nested {
+		res.Regs = fmt.Sprintf("AsyncContextTracker: Resumed without Exited: %d, nested: %v; ", trk.depth, trk.nested)
+	}
+	res.Regs += fmt.Sprintf("%+v", regs)
 	// reusability: the same runtime must behave like a fresh one afterwards
 	if j.After != "" {
 		vm.SetMaxCallStackSize(1 << 30)
@@ -216,6 +225,21 @@ func runOne(j job) (res result, trace string) {
 	res.Events = strings.Count(tb.String(), "\n")
 	return res, tb.String()
 }
+
+// tracker counts the Resumed / Exited bracket of promise reaction jobs: balanced and never nested once the runtime is idle
+type tracker struct {
+	depth  int
+	nested bool
+}
+
+func (t *tracker) Grab() interface{} { return nil }
+func (t *tracker) Resumed(interface{}) {
+	if t.depth != 0 {
+		t.nested = true
+	}
+	t.depth++
+}
+func (t *tracker) Exited() { t.depth-- }
 
 func main() {
 	in := flag.String("in", "", "jobs json")
